@@ -20,6 +20,7 @@ META = {
             "are published (H ops): the call must return by its deadline with the ready prefix (stuck / mon-timed / "
             "mon-prefix otherwise).  "
             "Deadline arithmetic of the two timed slow paths (coq/BQ/BQDeadlineModel.v: the futex loop with its refresh of the remaining time and the usleep loop, against an arbitrary list of wake-up events; the timeout the refresh starts from, the store-back, the single sampling of begin, the ETIMEDOUT exit, the subtraction, both expiry tests, the spin deadline and quantum are regenerated): for every number and timing of spurious or genuine wake-ups the wait ends by begin + timeout + one scheduling delay (+ one quantum when spinning): c02_timed_futex_wait_meets_deadline, c02_timed_futex_wait_nonpositive_timeout, c02_timed_futex_wait_only_waits_before_deadline, c02_timed_spin_wait_meets_deadline.  "
+            "reserve_and_clear (coq/BQ/BQReserve.v): on a quiescent empty queue the slot of the next push index keeps the push version of that index - the indexes are rewound only in the capacity-changed branch together with the per-slot futex reset, the other branch is clear() alone (positions regenerated: rc_* targets; c02_reserve_and_clear_keeps_protocol_state).  "
             "Public overloads: every forwarded template-argument list (value / pointer / iterator "
             "overloads, the overloads without template arguments, the callback overloads handing <WAIT, WAKE, PUSH_OR_POP> "
             "resp. <CONCURRENT, WAKE, PUSH_OR_POP> to the cores) is regenerated; the model runs `lower` of each client call, "
